@@ -148,6 +148,12 @@ def add_room(
 
     for rxn in model.reactions:
         flux = solution.fluxes[rxn.id]
+        # a reference flux that misses a bound by solver rounding sits on that
+        # bound; the difference would otherwise become a coefficient of y
+        if abs(flux - rxn.upper_bound) < model.tolerance:
+            flux = rxn.upper_bound
+        elif abs(flux - rxn.lower_bound) < model.tolerance:
+            flux = rxn.lower_bound
 
         if linear:
             y = prob.Variable("y_" + rxn.id, lb=0, ub=1)
